@@ -31,6 +31,11 @@ func (e *Engine) findIntrinsic(fn *ssa.Function) intrinsicFn {
 			return f
 		}
 	}
+	if strings.HasPrefix(name, "(*regexp.Regexp).") {
+		return func(e *Engine, caller *frame, fn *ssa.Function, args []value) value {
+			panic(engineError{"regexp method not modelled: " + fn.String()})
+		}
+	}
 	if fn.Pkg != nil {
 		switch fn.Pkg.Pkg.Path() {
 		case "internal/race", "internal/msan", "internal/asan":
@@ -746,4 +751,122 @@ func (e *Engine) unsafeBuiltin(caller *frame, name string, args []value) (value,
 
 func init() {
 	_ = strings.Builder{}
+}
+
+// ---------- regexp (constant single-character-class / literal patterns) ----------
+
+func (e *Engine) regexpExpr(recv value) string {
+	p, ok := recv.(Ptr)
+	if !ok || p.p == nil {
+		panic(engineError{"regexp: nil receiver"})
+	}
+	st := (*p.p).(Struct)
+	s, ok := st[0].(Str)
+	if !ok || !s.IsConc() {
+		panic(engineError{"regexp: non-constant pattern"})
+	}
+	return s.s
+}
+
+// regexpMatchBytes: does the pattern match anywhere in b?
+func (e *Engine) regexpMatchBytes(expr string, b []*Term) *Term {
+	c := e.ctx
+	re, err := rxParse(expr)
+	if err != nil {
+		panic(engineError{"regexp: " + err.Error()})
+	}
+	switch re.kind {
+	case rxClass:
+		r := c.fls
+		for _, x := range b {
+			in := c.fls
+			for _, rg := range re.ranges {
+				lo, hi := c.Const(8, uint64(rg[0])), c.Const(8, uint64(rg[1]))
+				in = c.Or(in, c.And(c.Ule(lo, x), c.Ule(x, hi)))
+			}
+			r = c.Or(r, in)
+		}
+		return r
+	case rxLiteral:
+		lit := make([]*Term, len(re.lit))
+		for i := range lit {
+			lit[i] = c.Const(8, uint64(re.lit[i]))
+		}
+		idx := e.indexSeq(b, lit)
+		return c.Sle(e.int64c(0), idx)
+	}
+	panic(engineError{"regexp: pattern too rich for the engine: " + expr})
+}
+
+func init() {
+	mk := func(e *Engine, caller *frame, fn *ssa.Function, args []value) value {
+		expr := args[0].(Str)
+		if !expr.IsConc() {
+			panic(engineError{"regexp: non-constant pattern"})
+		}
+		t := e.pkgType("regexp", "Regexp")
+		cell := new(value)
+		z := e.zero(t).(Struct)
+		z[0] = expr
+		*cell = z
+		return Ptr{p: cell}
+	}
+	reg("regexp.MustCompile", mk)
+	reg("regexp.Compile", func(e *Engine, caller *frame, fn *ssa.Function, args []value) value {
+		return Tuple{mk(e, caller, fn, args), Iface{}}
+	})
+	reg("(*regexp.Regexp).MatchString", func(e *Engine, caller *frame, fn *ssa.Function, args []value) value {
+		return e.regexpMatchBytes(e.regexpExpr(args[0]), e.bytesOf(args[1]))
+	})
+	reg("(*regexp.Regexp).Match", func(e *Engine, caller *frame, fn *ssa.Function, args []value) value {
+		return e.regexpMatchBytes(e.regexpExpr(args[0]), e.bytesOf(args[1]))
+	})
+	reg("(*regexp.Regexp).String", func(e *Engine, caller *frame, fn *ssa.Function, args []value) value {
+		return Str{s: e.regexpExpr(args[0])}
+	})
+}
+
+// strings.IndexAny / ContainsAny with an all-ASCII constant character set:
+// the first matching byte is the first matching rune (an ASCII byte is never
+// part of a multi-byte sequence), so a byte-level chain is exact.
+func init() {
+	asciiSet := func(v value) ([]byte, bool) {
+		s, ok := v.(Str)
+		if !ok || !s.IsConc() {
+			return nil, false
+		}
+		for i := 0; i < len(s.s); i++ {
+			if s.s[i] >= 0x80 {
+				return nil, false
+			}
+		}
+		return []byte(s.s), true
+	}
+	indexAny := func(e *Engine, s []*Term, set []byte) *Term {
+		c := e.ctx
+		r := e.int64c(-1)
+		for i := len(s) - 1; i >= 0; i-- {
+			in := c.fls
+			for _, ch := range set {
+				in = c.Or(in, c.Eq(s[i], c.Const(8, uint64(ch))))
+			}
+			r = c.Ite(in, e.int64c(int64(i)), r)
+		}
+		return r
+	}
+	for _, pkg := range []string{"strings", "bytes"} {
+		pkg := pkg
+		reg(pkg+".IndexAny", func(e *Engine, caller *frame, fn *ssa.Function, args []value) value {
+			if set, ok := asciiSet(args[1]); ok {
+				return indexAny(e, e.bytesOf(args[0]), set)
+			}
+			return e.callSSABody(caller, fn, args)
+		})
+		reg(pkg+".ContainsAny", func(e *Engine, caller *frame, fn *ssa.Function, args []value) value {
+			if set, ok := asciiSet(args[1]); ok {
+				return e.ctx.Sle(e.int64c(0), indexAny(e, e.bytesOf(args[0]), set))
+			}
+			return e.callSSABody(caller, fn, args)
+		})
+	}
 }
